@@ -346,6 +346,7 @@ class World(object):
         self.dd_stack = []
         self.dd_hosts = None
         self.dd_calls = 0
+        self.dd_rev = 0
         self.nested_depth = 0
 
     def v(self, cat, msg):
@@ -603,11 +604,15 @@ class World(object):
             return DDHost.s, ("s", None)
         if fn == "sx":  # static method reached through an instance: same function, same key space
             return self.dd_hosts["x"].s, ("s", None)
+        if fn == "h":  # custom keygetter whose result depends on state that the body changes
+            return dd_h, ("h", None)
         raise ValueError(fn)
 
     def dd_call(self, fn, key, sp):
         target, ident = self.dd_target(fn)
         rk = ident + (key,)
+        if fn == "h":
+            rk = rk + (self.dd_rev,)
         self.dd_calls += 1
         prev = self.dd_inflight.get(rk)
         in_flight = prev is not None and not prev.is_computed()
@@ -1099,7 +1104,7 @@ def _block(w, tc, stmts, rec, made):
             raise ValueError(op)
 
 
-_DD_IDX = {("f", None): 0, ("g", None): 1, ("m", "x"): 2, ("m", "y"): 3, ("s", None): 4}
+_DD_IDX = {("h", None): 5, ("f", None): 0, ("g", None): 1, ("m", "x"): 2, ("m", "y"): 3, ("s", None): 4}
 
 
 def _dd_body(fn, host, key):
@@ -1111,6 +1116,8 @@ def _dd_body(fn, host, key):
     base = -(100000 + _DD_IDX[(fn, host)] * 10000 + key * 1000 + run * 10)
     kind = w.dd_body
     w.dd_stack.append(rk)
+    if fn == "h":
+        w.dd_rev += 1
     try:
         if kind == "ret":
             return ("dd", fn, host, key, run)
@@ -1150,6 +1157,16 @@ def dd_f(key, mode=0):
 @_asynq_deco()
 def dd_g(key, mode=0):
     return (yield from _dd_body("g", None, key))
+
+
+def _dd_h_key(args, kwargs):
+    return (args[0] if args else kwargs["key"], _cur.w.dd_rev)
+
+
+@_tools.deduplicate(keygetter=_dd_h_key)
+@_asynq_deco()
+def dd_h(key, mode=0):
+    return (yield from _dd_body("h", None, key))
 
 
 class DDHost(object):
